@@ -608,7 +608,7 @@ class Tr:
 
 def parse_module(text):
     mod = Mod()
-    lines = text.split("\n")
+    lines = [re.sub(r',?\s*![A-Za-z_][\w.]* !\d+', '', l) if '!' in l and not l.startswith('!') else l for l in text.split("\n")]
     i = 0
     while i < len(lines):
         ln = lines[i]
